@@ -140,7 +140,8 @@ static void flatten_copy() {
   }
   V_WITNESS("copy-ok");
 }
-HARNESS h_flatten_copy() { flatten_copy<8, 32>(); }
+HARNESS h_flatten_copy() { flatten_copy<6, 24>(); }
+HARNESS h_flatten_copy_mid() { flatten_copy<8, 32>(); }
 HARNESS h_flatten_copy_big() { flatten_copy<16, 64>(); }
 
 // copy_flattened_data from an arbitrary section table (offsets, sizes unconstrained: overlapping, huge, without offset):
@@ -171,5 +172,6 @@ static void copy_arbitrary() {
   }
   else V_WITNESS("copy-arbitrary-refused");
 }
-HARNESS h_copy_arbitrary() { copy_arbitrary<8, 32>(); }
+HARNESS h_copy_arbitrary() { copy_arbitrary<6, 24>(); }
+HARNESS h_copy_arbitrary_mid() { copy_arbitrary<8, 32>(); }
 
